@@ -290,6 +290,13 @@ func (w *World) ProduceBlock(dtSec int, miss []int) {
 			return
 		}
 	}
+	if !w.booting && w.ReadState().LastTotalPower().IsZero() {
+		// every validator left the bonded set in this block: Tendermint refuses an empty validator set
+		// ("applying the validator changes would result in empty set") and the chain stops here
+		w.Halted = "no bonded voting power left"
+		w.St.Probe("chain-halted-empty-validator-set")
+		return
+	}
 	w.checkByzantineBound()
 	for _, o := range w.activeOracles() {
 		o.AfterEnd(w)
